@@ -147,7 +147,7 @@ def reviewedMemoWrites : List ((Nat × Nat × Nat) × WriteTag) :=
    -- enum Member
    ((k! "model/enum.py", k! "Member.__init__", k! "self.alias"), .fieldOfOtherClass),
    -- REBINDS DataType.import_ to a NEW Import(..., alias=…); the shared Import object is left alone
-   ((k! "parser/base.py", k! "Parser.__alias_shadowed_imports", k! "model_field.data_type.import_"), .rebindsFieldOfOtherClass),
+   ((k! "parser/base.py", k! "Parser.__alias_shadowed_imports", k! "data_type.import_"), .rebindsFieldOfOtherClass),
    -- DataModelFieldBase.alias
    ((k! "parser/base.py", k! "Parser.__change_field_name", k! "field.alias"), .fieldOfOtherClass),
    -- DataType.alias
